@@ -200,17 +200,18 @@ Proof.
       { pose proof (tile_emit (l_base l) (l_out l) tok Hti) as H1. cbn in H1. rewrite N.add_0_r in H1. apply H1. intros C; contradiction. }
       eexists. split; [reflexivity|]. change (gen_tokenSemicolon =? gen_tokenRaw) with false.
       change (gen_tokenSemicolon =? gen_tokenIdentifier) with false.
-      change (gen_tokenSemicolon =? gen_tokenEnd) with false. cbn [l_src l_base l_out set_out set_tot l_line l_col l_cdev l_ldev l_ctx l_ctxs].
-      rewrite N.add_0_r, !N.sub_0_r. repeat split; auto.
-      econstructor; [exact Ho| |cbn; lia]. unfold tok_at. cbn. split; [reflexivity|]. right. split; reflexivity.
+      change (gen_tokenSemicolon =? gen_tokenEnd) with false.
+      destruct (l_tsyn _); cbn [l_src l_base l_out set_out set_tot l_line l_col l_cdev l_ldev l_ctx l_ctxs];
+      rewrite N.add_0_r, !N.sub_0_r; repeat split; auto;
+      (econstructor; [exact Ho| |cbn; lia]); unfold tok_at; cbn; (split; [reflexivity|]); right; split; reflexivity.
     + set (tok := mkTok typ (l_base l) (l_base l) 0 line col (l_line l) ctx (l_tag l) (l_att l) cd ld).
       assert (Htok : outs_ok (l_base l) (tok :: l_out l)).
       { econstructor; [exact Ho| |cbn; lia]. unfold tok_at. cbn. split; [reflexivity|]. left. reflexivity. }
       assert (Htile : tile_ok (l_base l) (tok :: l_out l)).
       { pose proof (tile_emit (l_base l) (l_out l) tok Hti) as H1. cbn in H1. rewrite N.add_0_r in H1. apply H1. intros C; contradiction. }
-      destruct (typ =? gen_tokenRaw); [destruct (_ =? gen_tokenStartStatement)|
+      destruct (l_tsyn _); [destruct (typ =? gen_tokenRaw); [destruct (_ =? gen_tokenStartStatement)|
         destruct (typ =? gen_tokenIdentifier); [cbn [l_raw set_out set_tot]; destruct (l_raw l); [destruct (_ =? gen_tokenRaw)|]|
-        destruct (typ =? gen_tokenEnd)]];
+        destruct (typ =? gen_tokenEnd)]]|];
       (eexists; split; [reflexivity|]; cbn; rewrite N.add_0_r, !N.sub_0_r; repeat split; auto).
   - assert (Hlt : (0 <? n) = true) by (apply N.ltb_lt; lia). rewrite Hlt.
     set (tok := mkTok typ (l_base l) (l_base l + n - 1) n line col (l_line l) ctx (l_tag l) (l_att l) cd ld).
@@ -220,9 +221,9 @@ Proof.
     { pose proof (tile_emit (l_base l) (l_out l) tok Hti) as H1. cbn in H1. apply H1. intros _. split; [reflexivity|lia]. }
     assert (Hw' : wf text (set_src (drop n (l_src l)) (l_base l + n) l)) by (apply wf_drop; assumption).
     destruct Hw' as [pre' [Hp1 Hp2]]. cbn in Hp1, Hp2.
-    destruct (typ =? gen_tokenRaw); [destruct (_ =? gen_tokenStartStatement)|
+    destruct (l_tsyn _); [destruct (typ =? gen_tokenRaw); [destruct (_ =? gen_tokenStartStatement)|
       destruct (typ =? gen_tokenIdentifier); [cbn [l_raw set_out set_tot]; destruct (l_raw l); [destruct (_ =? gen_tokenRaw)|]|
-      destruct (typ =? gen_tokenEnd)]];
+      destruct (typ =? gen_tokenEnd)]]|];
     (eexists; split; [reflexivity|]; cbn; repeat split; auto; try (exists pre'; split; assumption); try apply nlen_drop).
 Qed.
 
